@@ -678,7 +678,8 @@ Print Assumptions C10_sc_layout_grammar.
        case-class parameter - the renamed field with its dashes replaced - is identifier-shaped and not a reserved word
        (C10-digit-name and C10-scala-keyword-name are outside); every Scala type override is the text of a type of the grammar;
        serde(default) stands only on Option fields (the finding class C10-scala-default, `x: T = _`, is outside); the content key of
-       a tagged enum, printed as the parameter name, is an identifier that is not a reserved word (excluded: content = "my-key");
+       a tagged enum, printed as the parameter name of every variant with a payload, is an identifier that is not a reserved word
+       (the finding classes C10-scala-content-key, content = "my-key", and C10-scala-keyword-name are outside);
      c10_scg_toplevel_ok: the package name has a dot, or nothing is written into the package-object section (no alias, no unsigned
        integer anywhere: the finding class C10-scala-toplevel-alias is outside) -
    the recogniser accepts the generated file: version header, package clause, package object with the helper aliases and the
@@ -693,6 +694,22 @@ Theorem C10_grammar_scala :
                     (List.length (p_aliases pd) + List.length (p_structs pd) + List.length (p_enums pd) <= n)%nat.
 Proof. exact Proofs.C10_SCGrammarFile.sc_generate_recognised. Qed.
 Print Assumptions C10_grammar_scala.
+
+(* The same with the grammar domain spelled as "in no recorded finding class": for every program of dom_C10 that is in no class of
+   known_C10 (C10-scala-default, C10-digit-name) and in no class of known_C10_sc_grammar (C10-scala-keyword-name,
+   C10-scala-toplevel-alias, C10-scala-content-key) - the two class functions the check evaluates on every case - and whose Scala
+   type overrides are types of the grammar (c10_scg_overrides_ok), under an admissible configuration whose type_mappings values are
+   types of the grammar and whose package name is a QualId, the recogniser accepts the generated file. *)
+Theorem C10_grammar_scala_classes :
+  forall (uc : unicode) (cfg : sc_config) (pd : parsed) (text : str),
+    Proofs.C10_SC.c10_sc_cfg_ok cfg = true -> Proofs.C10_SCGrammarFile.c10_scg_cfg_ok cfg -> dom_C10 CSC pd = true ->
+    known_C10 CSC (sc_package cfg) pd = [] -> known_C10_sc_grammar (sc_package cfg) pd = [] ->
+    Proofs.C10_SCGrammarFile.c10_scg_overrides_ok pd ->
+    sc_generate uc cfg pd = Ok text ->
+    exists n : nat, c10_sc_recognise text = Some n /\
+                    (List.length (p_aliases pd) + List.length (p_structs pd) + List.length (p_enums pd) <= n)%nat.
+Proof. exact Proofs.C10_SCGrammarFile.sc_generate_recognised_classes. Qed.
+Print Assumptions C10_grammar_scala_classes.
 
 (* The hypotheses are satisfiable and acceptance means something: a program with a documented generic case class (String, an
    Option with its `= None` default, Vector, a mapped Url, Map of a generic application, a dashed doubly-optional key, a verbatim
@@ -748,6 +765,19 @@ Theorem C10_scala_toplevel_alias_refuted :
     contains_sub (lit "package") text = false /\ good_C10_lex CSC text = true /\ c10_sc_recognise text = None.
 Proof. exact Proofs.C10_SCGrammarFile.scala_toplevel_alias_refuted. Qed.
 Print Assumptions C10_scala_toplevel_alias_refuted.
+
+(* C10-scala-content-key: a tagged enum with content = "my-content" and a tuple variant is in dom_C10 (the key is key-shaped), in
+   no class of known_C10, in the class C10-scala-content-key; its file has `case class A(my-content: String) extends E {`, is
+   lexically balanced and rejected by the recogniser (the key is printed as the parameter name as it is) *)
+Theorem C10_scala_content_key_refuted :
+  exists text, dom_C10 CSC Proofs.C10_SCGrammarFile.c_prog = true /\
+    known_C10 CSC (sc_package Proofs.C10_SCGrammarFile.g_cfg) Proofs.C10_SCGrammarFile.c_prog = [] /\
+    known_C10_sc_grammar (sc_package Proofs.C10_SCGrammarFile.g_cfg) Proofs.C10_SCGrammarFile.c_prog = ["C10-scala-content-key"%string] /\
+    sc_generate uc_exec Proofs.C10_SCGrammarFile.g_cfg Proofs.C10_SCGrammarFile.c_prog = Ok text /\
+    contains_sub (lit "case class A(my-content: String) extends E {") text = true /\
+    good_C10_lex CSC text = true /\ c10_sc_recognise text = None.
+Proof. exact Proofs.C10_SCGrammarFile.scala_content_key_refuted. Qed.
+Print Assumptions C10_scala_content_key_refuted.
 
 (* the recorded class C10-scala-default is seen by the recogniser too: `x: String = _` is not a ClassParam (`_` is not an Expr) *)
 Theorem C10_scala_default_rejected :
